@@ -221,3 +221,20 @@ LEVEL_TEXT.update({
     'C20': 'Composition theorem in Coq (adaptor invariant for all slice sizes + the C05 session induction) for every partition of the stream into binary messages with arbitrary interleaved non-binary messages, stated both absolutely and as equality with the TCP session; tied to the real WebsocketStream on a loopback tokio-tungstenite server at adaptor level (scripted slice sizes, messages up to 66 KB) and at session level (six partition styles, up to 700 frames, noise messages, close handshake), and for writes.',
 })
 NOT_APPLICABLE.pop('C20', None)
+
+PROPS.update({
+    'C19': dict(gens=['consts'], coq_targets=['Props/C19.vo'], coqchk_modules=['Props.C19'], group='net', harness='c19', axioms_allowed=[],
+        proved=['cancel_safe: for every packet layer, mode, transport script (any segmentation, transient errors, not-ready turns on both halves) and EVERY choice of pending polls at which the future is dropped, any number of times, the session - results, order, outgoing bytes between results - equals the uninterrupted session (induction over the poll sequence; unbounded)',
+                'the reason, as a lemma: resuming a suspended future and polling a fresh one are the same step from every state a suspension can leave (invariant Inv, proved preserved by every pending poll): all progress is committed to the connection inside one poll',
+                'outgoing side under any cancellation schedule: between two results exactly one whole keep-alive reply is written, before the keep-alive is returned, and nothing else; no result is returned while a reply is half written',
+                'the pre-repair design (reply + packet held by the future) is refuted: after one accepted byte the connection state no longer mentions the packet'],
+        modelled=NET_MODELLED + ['the tokio Framed::read future is hand-modelled as a small-step function poll_from : pc -> state -> scripts -> (Pending pc | Ready result) (Net/Async.v): state that survives a drop = receive buffer + pending reply + its packet; dropping = forgetting pc',
+                                 'tied to the real future by polling it by hand (futures_util::poll!) on a scripted AsyncRead/AsyncWrite under a paused-clock runtime and dropping it at chosen pending polls: the trace of every such run is compared with the model\'s, and with the uninterrupted run of the real code'],
+        assumptions=NET_ASSUME + ['the tokio runtime itself (timer wheel, wakers, select! fairness) is not modelled; a dropped read restarts the 90 s timeout (time is not modelled)',
+                                  'tokio AsyncReadExt::read / AsyncWriteExt::write_buf commit their progress within the poll that makes it (documented cancel safety of both), as modelled',
+                                  'the UDP and WebSocket adaptors keep undelivered bytes in their own buffers (C08/C20) and their poll_write sends a whole frame or nothing, so the same argument applies; they are exercised in C08/C20, not here']),
+})
+LEVEL_TEXT.update({
+    'C19': 'Theorems over a small-step model of the read future: equality of every cancelled session with the uninterrupted one for all scripts and all cancellation schedules (induction, with the suspension invariant), plus the whole-reply invariant on the outgoing side; tied to the real tokio future by manual polling and dropping at chosen pending polls (all 2^n schedules of short scripts, random long sessions), compared with the model and with the uninterrupted real run.',
+})
+NOT_APPLICABLE.pop('C19', None)
